@@ -13,8 +13,18 @@ trap 'git -C /repo worktree remove --force "$d" 2>/dev/null; rm -rf "$d"' EXIT
 echo "demo on clean tree: exit=$c ($([ $c -eq 0 ] && echo passes || echo FAILS))"
 git -C "$d" apply "$S/patch.diff" || { echo "patch does not apply"; exit 2; }
 ( cd "$d" && make -j8 >/tmp/seedconfirm.$$.make 2>&1 ) && echo "with change: builds" || { echo "with change: DOES NOT BUILD"; tail -5 /tmp/seedconfirm.$$.make; exit 1; }
-"$V/tools/run_baseline.sh" "$d" 2>&1 | grep '^baseline' | cut -c1-80
+b=$("$V/tools/run_baseline.sh" "$d" 2>&1 | grep '^baseline' | cut -c1-80); echo "$b"
 rm -f "$d"/tests/output/*.sock.out
 ( cd "$S" && timeout 1200 bash ./demo.sh "$d" >/tmp/seedconfirm.$$.mut 2>&1 ); m=$?
 echo "demo with change: exit=$m ($([ $m -ne 0 ] && echo fails || echo PASSES))"
+if [ -f "$S/meta.json" ]; then
+python3 - "$S/meta.json" "$c" "$m" "$b" <<'PY'
+import json, sys
+p, c, m, b = sys.argv[1], int(sys.argv[2]), int(sys.argv[3]), sys.argv[4]
+meta = json.load(open(p))
+meta["confirmed"] = {"by": "tools/seedconfirm.sh (scratch worktree of /repo HEAD)", "demo_on_clean_tree": "exit=%d" % c, "builds": True,
+                     "baseline": b[:60], "demo_with_change": "exit=%d" % m, "ok": c == 0 and m != 0 and "172 of 172" in b}
+json.dump(meta, open(p, "w"), indent=1)
+PY
+fi
 rm -f /tmp/seedconfirm.$$.*
